@@ -2,6 +2,7 @@
 from __future__ import annotations
 
 import ast
+import re
 
 from ..core import AnalysisError, AnchorMissing, FuncRef, Program, dotted
 from ..flow import Flow
@@ -67,7 +68,51 @@ def is_lazy_term(t: Term, lazy_funcs: set[str]) -> bool:
 # L1
 # --------------------------------------------------------------------------------------
 
-def lazy_reuse_findings(func: ast.FunctionDef, lazy_assign_nodes: set[int]) -> list[tuple[ast.AST, str]]:
+def _iterable_params(func: ast.FunctionDef) -> set[str]:
+    """Parameters annotated as (possibly single-use) iterables: Iterable[...] / Iterator[...] / Generator[...]."""
+    out = set()
+    a = func.args
+    for x in a.posonlyargs + a.args + a.kwonlyargs:
+        if x.annotation is not None:
+            t = ast.unparse(x.annotation)
+            if re.search(r"\b(Iterable|Iterator)\b|(?<!random\.)\bGenerator\[", t) and not re.search(r"\b(list|List|Sequence|tuple|set)\[", t.split("|")[0]):
+                out.add(x.arg)
+    return out
+
+
+def _consuming_loads(node: ast.AST) -> dict[str, int]:
+    """Number of consuming loads per name in an expression/statement: `x is None` tests and isinstance(x, ..) do not consume;
+    the two arms of a conditional expression are alternatives."""
+    counts: dict[str, int] = {}
+
+    def merge_max(a: dict, b: dict) -> dict:
+        return {k: max(a.get(k, 0), b.get(k, 0)) for k in set(a) | set(b)}
+
+    def add(a: dict, b: dict) -> dict:
+        return {k: a.get(k, 0) + b.get(k, 0) for k in set(a) | set(b)}
+
+    def rec(n: ast.AST) -> dict:
+        if isinstance(n, ast.Name):
+            return {n.id: 1} if isinstance(n.ctx, ast.Load) else {}
+        if isinstance(n, ast.Compare) and len(n.ops) == 1 and isinstance(n.ops[0], (ast.Is, ast.IsNot)) and isinstance(n.left, ast.Name):
+            return rec(n.comparators[0])
+        if isinstance(n, ast.Call) and isinstance(n.func, ast.Name) and n.func.id in ("isinstance", "type", "id") and n.args and isinstance(n.args[0], ast.Name):
+            out: dict = {}
+            for a in n.args[1:]:
+                out = add(out, rec(a))
+            return out
+        if isinstance(n, ast.IfExp):
+            return add(rec(n.test), merge_max(rec(n.body), rec(n.orelse)))
+        if isinstance(n, (ast.FunctionDef, ast.AsyncFunctionDef, ast.ClassDef)):
+            return {}
+        out = {}
+        for c in ast.iter_child_nodes(n):
+            out = add(out, rec(c))
+        return out
+    return rec(node)
+
+
+def lazy_reuse_findings(func: ast.FunctionDef, lazy_assign_nodes: set[int], lazy_params: set[str] = frozenset()) -> list[tuple[ast.AST, str]]:
     """Names bound to a single-use iterator that are loaded more than once on some path.
 
     ``lazy_assign_nodes``: ids of the Assign statements whose value is a single-use iterator.
@@ -85,12 +130,17 @@ def lazy_reuse_findings(func: ast.FunctionDef, lazy_assign_nodes: set[int]) -> l
 
     def consume(state: frozenset, node: ast.AST) -> frozenset:
         d = dict(state)
-        for n in loads_in(node):
-            st = d.get(n.id)
+        for name, cnt in _consuming_loads(node).items():
+            st = d.get(name)
+            if st is None or cnt == 0:
+                continue
+            first = next((n for n in loads_in(node) if n.id == name), node)
             if st == "fresh":
-                d[n.id] = "used"
+                d[name] = "used"
+                if cnt > 1:
+                    findings.append((first, name))
             elif st == "used":
-                findings.append((n, n.id))
+                findings.append((first, name))
         return frozenset(d.items())
 
     def transfer(state, node, kind):
@@ -126,7 +176,7 @@ def lazy_reuse_findings(func: ast.FunctionDef, lazy_assign_nodes: set[int]) -> l
         # the loop variable of ``for x in it`` re-binds x: handled by consume() not knowing x; fine
         pass
 
-    _F(func, transfer).run({frozenset()})
+    _F(func, transfer).run({frozenset((p, "fresh") for p in lazy_params)})
     # unique by position
     seen, out = set(), []
     for n, name in findings:
@@ -173,15 +223,16 @@ def rule_l1_lazy_reuse(prog: Program, col: Collector) -> None:
                 vn = e.data["value_node"]
                 if isinstance(vn, (ast.Call, ast.GeneratorExp, ast.IfExp)):
                     lazy_nodes.add(id(e.node))
-        if not lazy_nodes:
+        lparams = _iterable_params(ref.node)
+        if not lazy_nodes and not lparams:
             continue
         nfun += 1
-        for n, name in lazy_reuse_findings(ref.node, lazy_nodes):
+        for n, name in lazy_reuse_findings(ref.node, lazy_nodes, lparams):
             total += 1
             col.violation(ref.where(n), ref.short, f"lazy-reuse:{name}", f"single-use iterator `{name}` is consumed a second time on some path",
                           "the second traversal sees an exhausted iterator: values and coalitions get out of step or a set of candidates is silently empty",
                           rule="L1")
-    col.ok("-", "package", f"{nfun} functions bind single-use iterators to names; {total} reuse(s) found (positive control matched)", rule="L1")
+    col.ok("-", "package", f"{nfun} functions hold single-use iterators in names or Iterable-annotated parameters; {total} reuse(s) found (positive control matched)", rule="L1")
 
 
 # --------------------------------------------------------------------------------------
@@ -325,6 +376,23 @@ def rule_c11_worker(prog: Program, col: Collector) -> None:
                   necessity="the known coalitions must carry the hidden game's values")
     col.check(oku, aref.where(), aref.short, "the sequence is united with `include` (the starting knowledge)", construct="apply-union",
               necessity="set_known_values drops everything else: without the union the starting knowledge is lost")
+
+    # the mutating worker may run in-process only on a copy: through the pool every task gets a pickled copy of the game
+    direct = []
+    for fr in prog.all_functions():
+        if fr.qual == ref.qual:
+            continue
+        f2 = fterms(prog, fr)
+        for e in f2.calls():
+            if is_global(e.func, P + "gameplay._get_act_sequence_exploitability") and e.args:
+                direct.append((fr, e))
+    for fr, e in direct:
+        g0 = e.args[0]
+        is_copy = (g0[0] == "call" and g0[1][0] == "attr" and g0[1][2] == "copy") or is_call_to(g0, "copy.copy", "copy.deepcopy")
+        col.check(is_copy, fr.where(e.node), fr.short, "a direct (in-process) call of the worker operates on a copy of the game",
+                  construct="worker-direct-call",
+                  necessity="the worker resets the knowledge of the game it is given: called in-process on the caller's own game (an env's incomplete game) "
+                            "it destroys the caller's state, and the result differs from the pooled path that works on pickled copies", rule="P2")
 
     col.rule("P3", "possible_action_sequences = combinations of the UNKNOWN coalitions for every size 0..max_size inclusive (each set exactly once)", 4)
     pref = prog.func("gameplay.possible_action_sequences")
